@@ -283,3 +283,61 @@ Section Proofs.
     Qed.
   End Energy.
 End Proofs.
+
+(* ---- closed statements (section variables generalised), as used by Props.v ---------------------- *)
+Lemma closed_value :
+  forall (A : Type) (a0 a1 : A) (aadd amul asub : A -> A -> A) (aopp : A -> A),
+    ring_theory a0 a1 aadd amul asub aopp (@eq A) ->
+  forall (P : Type) (ptab : P -> ptw_entry A), (forall p x, pf (ptab p) x = phf (ptab p) x) ->
+  forall (om : bool) (e : expr A P) (r : env A) (i : nat),
+    fst (lin A a0 a1 aadd amul asub P ptab om e r) i = eval A a0 aadd amul asub P ptab e r i.
+Proof. intros; now apply lin_value. Qed.
+
+Lemma closed_jacobian_dual :
+  forall (A : Type) (a0 a1 : A) (aadd amul asub : A -> A -> A) (aopp : A -> A),
+    ring_theory a0 a1 aadd amul asub aopp (@eq A) ->
+  forall (P : Type) (ptab : P -> ptw_entry A), (forall p x, pf (ptab p) x = phf (ptab p) x) ->
+  forall (om : bool) (e : expr A P) (r d : env A) (i : nat),
+    times A a0 aadd amul (snd (lin A a0 a1 aadd amul asub P ptab om e r)) d i
+    = snd (evalD A a0 a1 aadd amul asub P ptab e r d i)
+    /\ fst (evalD A a0 a1 aadd amul asub P ptab e r d i) = eval A a0 aadd amul asub P ptab e r i.
+Proof. intros; split; [eapply jac_dual; eauto | apply dual_value]. Qed.
+
+Lemma closed_adjoint :
+  forall (A : Type) (a0 a1 : A) (aadd amul asub : A -> A -> A) (aopp : A -> A),
+    ring_theory a0 a1 aadd amul asub aopp (@eq A) ->
+  forall (K : nat) (dims : nat -> nat) (J : jop A) (m : nat) (y : vec A) (d : env A),
+    jshape A K dims J = Some m ->
+    dotE A a0 aadd amul K dims (adj A a0 aadd amul J y) d = dotn A a0 aadd amul m y (times A a0 aadd amul J d).
+Proof. intros; eapply adj_ok; eauto. Qed.
+
+Lemma closed_jacobian_shape :
+  forall (A : Type) (a0 a1 : A) (aadd amul asub : A -> A -> A) (P : Type) (ptab : P -> ptw_entry A)
+         (K : nat) (dims : nat -> nat) (om : bool) (e : expr A P) (r : env A) (m : nat),
+    eshape A P K dims e = Some m ->
+    jshape A K dims (snd (lin A a0 a1 aadd amul asub P ptab om e r)) = Some m.
+Proof. intros; now apply lin_shape. Qed.
+
+Lemma closed_energy_value_and_gradient :
+  forall (A : Type) (a0 a1 ahalf : A) (aadd amul asub : A -> A -> A) (aopp : A -> A) (anonneg : A -> bool),
+    ring_theory a0 a1 aadd amul asub aopp (@eq A) ->
+  forall (P : Type) (ptab : P -> ptw_entry A), (forall p x, pf (ptab p) x = phf (ptab p) x) ->
+    amul ahalf (two A a1 aadd) = a1 ->
+  forall (om wm : bool) (h : energy A P) (r d : env A),
+    fst (fst (linE A a0 a1 ahalf aadd amul asub anonneg P ptab om wm h r)) = evalE A a0 ahalf aadd amul asub P ptab h r
+    /\ times A a0 aadd amul (snd (fst (linE A a0 a1 ahalf aadd amul asub anonneg P ptab om wm h r))) d 0%nat
+       = snd (evalED A a0 a1 ahalf aadd amul asub P ptab h r d)
+    /\ fst (evalED A a0 a1 ahalf aadd amul asub P ptab h r d) = evalE A a0 ahalf aadd amul asub P ptab h r.
+Proof. intros; repeat split; [now apply linE_value | eapply linE_jac_dual; eauto | apply evalED_value]. Qed.
+
+Lemma closed_metric_carried :
+  forall (A : Type) (a0 a1 ahalf : A) (aadd amul asub : A -> A -> A) (aopp : A -> A) (anonneg : A -> bool),
+    ring_theory a0 a1 aadd amul asub aopp (@eq A) ->
+  forall (P : Type) (ptab : P -> ptw_entry A), (forall p x, pf (ptab p) x = phf (ptab p) x) ->
+  forall (om : bool) (h : energy A P) (r : env A),
+    snd (linE A a0 a1 ahalf aadd amul asub anonneg P ptab om false h r) = None /\
+    (scales_nonneg A anonneg P h = true ->
+     exists M, snd (linE A a0 a1 ahalf aadd amul asub anonneg P ptab om true h r) = Some M /\
+               forall d k i, mapply A a0 aadd amul M d k i = fisher A a0 a1 aadd amul asub P ptab om h r d k i).
+Proof. intros; split; [apply metric_absent | eapply metric_carried; eauto]. Qed.
+
